@@ -250,6 +250,64 @@ Definition smon_step (m : smon) (e : event) : option smon :=
   end.
 
 (* ------------------------------------------------------------------ *)
+(* C29 (3c): the cycle that answers a waiting flush completed: when
+   Flush(wait) returns nil, the Transition calls of the cycle whose full scans
+   satisfied (3) have all returned, and none of them returned an error (the
+   loop returns the error of a failed Transition call from the cycle before
+   it answers the request). Per active waiting flush: the scan flags of (3);
+   the "window" of the candidate cycle runs from the completion of those
+   flags to the next scan entered (x_sealed: that next scan was seen, the
+   window is over); inside the window a Transition call that is entered must
+   return (x_oa, x_ob: entered and not yet returned), and one that returns an
+   error discards the candidate: new full scans are required. *)
+Record xentry := { x_f : fentry; x_sealed : bool; x_oa : bool; x_ob : bool }.
+Definition xmon := list xentry.
+
+Definition x_tid (x : xentry) : tid := f_tid (x_f x).
+Definition x_fresh (t : tid) : xentry :=
+  {| x_f := {| f_tid := t; f_ea := false; f_eb := false; f_xa := false; f_xb := false |};
+     x_sealed := false; x_oa := false; x_ob := false |}.
+Definition x_window (x : xentry) : bool := f_complete (x_f x) && negb (x_sealed x).
+Definition x_set_open (s : side) (b : bool) (x : xentry) : xentry :=
+  match s with
+  | Alpha => {| x_f := x_f x; x_sealed := x_sealed x; x_oa := b; x_ob := x_ob x |}
+  | Beta => {| x_f := x_f x; x_sealed := x_sealed x; x_oa := x_oa x; x_ob := b |}
+  end.
+
+Definition x_step (e : event) (x : xentry) : xentry :=
+  match e with
+  | Sn s full _ =>
+    {| x_f := if full then f_on_enter s (x_f x) else x_f x;
+       x_sealed := x_sealed x || f_complete (x_f x); x_oa := x_oa x; x_ob := x_ob x |}
+  | Sx s true _ _ => {| x_f := f_on_exit s (x_f x); x_sealed := x_sealed x; x_oa := x_oa x; x_ob := x_ob x |}
+  | Tn s _ => if x_window x then x_set_open s true x else x
+  | Tx s ok _ => if x_window x then (if ok then x_set_open s false x else x_fresh (x_tid x)) else x
+  | _ => x
+  end.
+
+Fixpoint x_find (t : tid) (m : xmon) : option xentry :=
+  match m with
+  | [] => None
+  | x :: rest => if Nat.eqb (x_tid x) t then Some x else x_find t rest
+  end.
+Definition x_remove (t : tid) (m : xmon) : xmon := filter (fun x => negb (Nat.eqb (x_tid x) t)) m.
+Definition x_done (x : xentry) : bool := f_complete (x_f x) && negb (x_oa x) && negb (x_ob x).
+
+Definition xmon_step (m : xmon) (e : event) : option xmon :=
+  match e with
+  | Ca t (CFlush true) => Some (x_fresh t :: m)
+  | Rt t (CFlush true) ok =>
+    if ok then
+      match x_find t m with
+      | Some x => if x_done x then Some (x_remove t m) else None
+      | None => None
+      end
+    else Some (x_remove t m)
+  | Ca _ _ | Rt _ _ _ => Some m
+  | _ => Some (map (x_step e) m)
+  end.
+
+(* ------------------------------------------------------------------ *)
 (* C29 (4): Reset clears the history while no loop runs. Observable form: when
    a Reset that overlapped no other lifecycle command returns nil and no scan
    was entered during its interval, the archive file holds the empty archive
@@ -399,15 +457,18 @@ Definition check_pause (evs : list event) : bool := accepts pmon_step pmon_init 
 Definition check_terminate (strict : bool) (evs : list event) : bool := accepts (tmon_step strict) tmon_init evs.
 Definition check_flush (evs : list event) : bool := accepts fmon_step [] evs.
 Definition check_saved (evs : list event) : bool := accepts smon_step smon_init evs.
+Definition check_flushtx (evs : list event) : bool := accepts xmon_step [] evs.
 Definition check_reset (evs : list event) : bool := accepts rmon_step rmon_init evs.
 Definition check_halt (md : mode) (evs : list event) : bool := accepts (hmon_step md) hmon_init evs.
 
-(* C29: all five; the known class is "only the strict form of the terminate
+(* C29: all six; the known class is "only the strict form of the terminate
    monitor rejects" *)
 Definition check_c29_events (md : mode) (evs : list event) : bool :=
-  check_pause evs && check_terminate true evs && check_flush evs && check_saved evs && check_reset evs.
+  check_pause evs && check_terminate true evs && check_flush evs && check_saved evs && check_reset evs
+  && check_flushtx evs.
 Definition check_c29_lenient (md : mode) (evs : list event) : bool :=
-  check_pause evs && check_terminate false evs && check_flush evs && check_saved evs && check_reset evs.
+  check_pause evs && check_terminate false evs && check_flush evs && check_saved evs && check_reset evs
+  && check_flushtx evs.
 Definition known_c29_events (md : mode) (evs : list event) : bool :=
   negb (check_terminate true evs) && check_c29_lenient md evs.
 
